@@ -139,13 +139,17 @@ def flushesOf (tr : List Ev) (i : Nat) : List (Nat × Nat) :=
 def oracleOf (batch : Nat) (sizes : List Nat) : List Bool :=
   sizes.flatMap fun n => List.replicate (n - 1) false ++ [decide (n < batch)]
 
-def batchesOfSource (cfg : Cfg) (tr : List Ev) (i : Nat) (data : Bytes) : Option (List (List Line)) :=
-  let ls := linesOf i data
-  let fl := flushesOf tr i
-  let oracle := if cfg.timed then oracleOf cfg.batch (fl.map (·.2)) else []
-  let flags := ls.zipIdx.map fun p => (p.1, (oracle[p.2]?).getD false)
-  let bs := Batcher.run cfg.batch flags
+def flagged (oracle : List Bool) (ls : List Line) : List (Line × Bool) :=
+  ls.zipIdx.map fun p => (p.1, (oracle[p.2]?).getD false)
+
+/-- The batches `Batcher.run` cuts under the oracle, provided they are the logged ones. -/
+def batchesWith (batch : Nat) (oracle : List Bool) (ls : List Line) (fl : List (Nat × Nat)) : Option (List (List Line)) :=
+  let bs := Batcher.run batch (flagged oracle ls)
   if bs.map (fun b => (b.start, b.lines.length)) = fl then some (bs.map (·.lines)) else none
+
+def batchesOfSource (cfg : Cfg) (tr : List Ev) (i : Nat) (data : Bytes) : Option (List (List Line)) :=
+  let fl := flushesOf tr i
+  batchesWith cfg.batch (if cfg.timed then oracleOf cfg.batch (fl.map (·.2)) else []) (linesOf i data) fl
 
 def batchesOf (cfg : Cfg) (tr : List Ev) : Option (List (List (List Line))) :=
   cfg.inputs.zipIdx.mapM fun p => batchesOfSource cfg tr p.2 p.1
@@ -318,5 +322,19 @@ def lin (wg : List Nat) (tr : List Ev) : Lin PSt :=
         match rp.find? fun q => q.1 = (e.src, e.a) with
         | some (_, pos) => some pos
         | none => some (p.1 + 1000000000) }
+
+/-! ### A small log for the non-vacuity examples of Props/C01 -/
+
+/-- A small real-shaped log (one reader source `ab⏎x⏎`, batch size 1, one worker; the worker logs its
+    first receive late, after the reader's second send) used for the non-vacuity examples. -/
+def exampleCfg : Cfg :=
+  { files := false, batch := 1, W := 1, R := 1, B := 1, timed := true, inputs := [[97, 98, 10, 120, 10]] }
+
+def exampleLog : List Ev :=
+  let mk (g : Nat) (k : String) (src a b : Nat) : Ev := ⟨g, k, src, a, b, []⟩
+  [mk 0 "so" 0 0 0, mk 0 "sb" 0 1 1, mk 0 "fl" 0 1 1, mk 1 "ws" noSrc 0 0, mk 0 "st" 0 1 1, mk 0 "fl" 0 2 1,
+   mk 1 "wr" 0 1 1, mk 1 "lm" 0 1 0, mk 1 "wd" 0 1 1, mk 0 "st" 0 2 1, mk 0 "sn" 0 0 0, mk 0 "cc" noSrc 0 0,
+   mk 2 "cr" 0 1 1, mk 1 "wt" noSrc 0 0, mk 1 "wr" 0 2 1, mk 1 "lu" 0 2 0, mk 1 "wx" noSrc 0 0, mk 3 "rc" noSrc 0 0,
+   mk 2 "cd" noSrc 0 0]
 
 end Rare.PipelineTrace
